@@ -319,7 +319,7 @@ int uv_pipe_connect2(uv_connect_t* req,
   }
 
   err = 0;
-  if (new_sock) {
+  if (new_sock || !(handle->flags & (UV_HANDLE_READABLE | UV_HANDLE_WRITABLE))) {
     err = uv__stream_open((uv_stream_t*)handle,
                           uv__stream_fd(handle),
                           UV_HANDLE_READABLE | UV_HANDLE_WRITABLE);
